@@ -48,7 +48,10 @@ def _check_uuid(uuid_str, spec_version, interoperability):
 
     uuid_obj = uuid.UUID(uuid_str)
 
-    ok = uuid_obj.variant == uuid.RFC_4122
+    # uuid.UUID() also understands braces, a "urn:uuid:" prefix and missing
+    # hyphens; a STIX identifier has to use the plain RFC 4122 string form.
+    ok = str(uuid_obj) == uuid_str.lower() and \
+        uuid_obj.variant == uuid.RFC_4122
     if ok and spec_version == "2.0":
         ok = uuid_obj.version == 4
 
